@@ -523,8 +523,8 @@ def serialize_units(ctx, src):
     emit(u, HDR % 'float', '{' + cases['3'] + '}', 'JSON::serialize case 3', CC, ret_zero='', desc=D + 'case 3', rules=OPT_RULES + [
         Rule(r'\bstring ret = string_printf\("%g", ([^;]*)\);', r'C04_printf_g(ret, \1);', regex=True, count=1),
         Rule(r"\bret\.find\(('(?:\\.|[^'\\])*')\) == string::npos", r'C04_find_c(ret, \1) == VSTR_NPOS', regex=True, count='+'),
-        Rule(r'\breturn ret \+ (' + LIT + r');', r'{ C04_append_lit(ret, \1); return; }', regex=True, count=1),
-        Rule(r'\breturn ret;', 'return;', regex=True, count=1)])
+        Rule(r'\breturn ret \+ (' + LIT + r');', r'{ C04_append_lit(ret, \1); return; }', regex=True),
+        Rule(r'\breturn ret;', 'return;', regex=True, count='+')])
     emit(u, HDR % 'string', '{' + cases['4'] + '}', 'JSON::serialize case 4', CC, ret_zero='', desc=D + 'case 4', rules=OPT_RULES + [
         Rule(r'\breturn (' + LIT + r') \+ JSON::escape_string\(([^;]*)\) \+ (' + LIT + r');',
              r'{ C04_assign_lit(ret, \1); JSON_escape_string(ret, \2); C04_append_lit(ret, \3); return; }', regex=True, count=1)])
@@ -712,14 +712,19 @@ class Concat(Rule):
         return ' '.join(out)
 
     def apply(self, text, where=''):
-        def app(mo):
-            return self.seq(split_plus(mo.group(1)), where, False)
-
-        def ret(mo):
-            return '{ ' + self.seq(split_plus(mo.group(1)), where, True) + ' return; }'
-        text = re.sub(r'\bret \+= ([^;]*);', app, text)
-        text = re.sub(r'\breturn ret \+ ([^;]*);', ret, text)
-        return text
+        # statements are located on the masked text, so that a ';' or '+' inside a literal is never taken for structure
+        while True:
+            m = lex.mask(text)
+            mo = re.search(r'\b(ret \+= |return ret \+ )', m)
+            if not mo:
+                return text
+            e = m.index(';', mo.end())
+            expr = text[mo.end():e]
+            if mo.group(1).startswith('return'):
+                rep = '{ ' + self.seq(split_plus(expr), where, True) + ' return; }'
+            else:
+                rep = self.seq(split_plus(expr), where, False)
+            text = text[:mo.start()] + rep + text[e + 1:]
 
 
 CONT_RULES = OPT_RULES + [
